@@ -94,9 +94,9 @@ def probe_names(patterns: dict):
     unescaped `.` (any character) and per escaped `.`; directory variants for whole-name alternatives."""
     out = {}
 
-    def add(name, kind="file"):
+    def add(name, kind="file", core_=False):
         if name and name not in (".", "..") and "/" not in name and "\n" not in name:
-            out.setdefault((name, kind), None)
+            out[(name, kind)] = out.get((name, kind), False) or core_
 
     for alts in patterns.values():
         for a in alts:
@@ -107,7 +107,7 @@ def probe_names(patterns: dict):
             if not base:
                 continue
             pre = "" if slash else "x"
-            add(pre + base)
+            add(pre + base, core_=True)
             if not slash:
                 add(base)
             add(pre + base + "x")
@@ -117,11 +117,11 @@ def probe_names(patterns: dict):
             for pos in a["any"]:
                 q = pos - 1 - off
                 if q >= 0:
-                    add(pre + base[:q] + ("x" if q == 0 and not pre else "-") + base[q + 1:])
+                    add(pre + base[:q] + ("x" if q == 0 and not pre else "-") + base[q + 1:], core_=True)
             for q, ch in enumerate(base):
                 if ch == "." and (q + 1 + off) not in a["any"]:
-                    add(pre + base[:q] + ("x" if q == 0 and not pre else "-") + base[q + 1:])
-    return sorted(out)
+                    add(pre + base[:q] + ("x" if q == 0 and not pre else "-") + base[q + 1:], core_=True)
+    return sorted((n, k, c) for (n, k), c in out.items())
 
 
 def tla_str(s: str) -> str:
@@ -136,8 +136,9 @@ def data_module(conf=None) -> str:
     hl = conf["handlers"]
     first_dir = min((hl.find(x), x) for x in ("UMN.UMNDirHandler", "dir.DirHandler") if hl.find(x) >= 0)[1]
     lists = {"default": {"handler": "umn" if first_dir.startswith("UMN") else "dir",
-                         "mbox": "mbox.MBoxFolderHandler" in hl, "html": "html.HTMLFileTitleHandler" in hl},
-             "dir": {"handler": "dir", "mbox": False, "html": False}}
+                         "mbox": "mbox.MBoxFolderHandler" in hl, "html": "html.HTMLFileTitleHandler" in hl,
+                         "buck": "gophermap.BuckGophermapHandler" in hl},
+             "dir": {"handler": "dir", "mbox": False, "html": False, "buck": False}}
 
     def alt(a):
         return "[lit |-> %s, any |-> {%s}, end |-> %s]" % (tla_str(a["lit"]), ", ".join(str(x) for x in a["any"]),
@@ -152,11 +153,11 @@ def data_module(conf=None) -> str:
     lines.append(",\n".join("  %s |-> <<\n    %s\n  >>" % (k, ",\n    ".join(alt(a) for a in v)) for k, v in pats.items()))
     lines.append("]")
     lines.append("DataLists == [")
-    lines.append(",\n".join("  %s |-> [handler |-> %s, mbox |-> %s, html |-> %s]"
-                            % (k, tla_str(v["handler"]), b(v["mbox"]), b(v["html"])) for k, v in lists.items()))
+    lines.append(",\n".join("  %s |-> [handler |-> %s, mbox |-> %s, html |-> %s, buck |-> %s]"
+                            % (k, tla_str(v["handler"]), b(v["mbox"]), b(v["html"]), b(v["buck"])) for k, v in lists.items()))
     lines.append("]")
     lines.append("DataProbes == {")
-    lines.append(",\n".join("  [name |-> %s, kind |-> %s]" % (tla_str(n), tla_str(k)) for n, k in probe_names(pats)))
+    lines.append(",\n".join("  [name |-> %s, kind |-> %s, core |-> %s]" % (tla_str(n), tla_str(k), b(c)) for n, k, c in probe_names(pats)))
     lines.append("}")
     lines.append("=============================================================================")
     return "\n".join(lines) + "\n", pats, lists
